@@ -942,7 +942,7 @@ def platform_part(run, prop, tier):
     """the OS-facing layer on the platforms this host is not: common.rs + emitters compiled for (os, arch) pairs against
     shims of the OS items, driven through the PatchTrait entry points; Trace_Flush under `prop`"""
     scen = []
-    for variant in ("linux-x64", "linux-a64", "windows-x64", "windows-a64", "macos-a64", "macos-x64"):
+    for variant in ("linux-x64", "linux-a64", "linux-arm", "windows-x64", "windows-a64", "macos-a64", "macos-x64"):
         offs = (64, 4090) if tier == "quick" else (0, 64, 2048, 4084, 4090, 4093)
         for off in offs:
             for installs in (["jump"], ["bool1"], ["jump", "bool0"], ["bool1", "jump", "jump"]):
